@@ -35,6 +35,11 @@ varargs mixed rc_efunfp(mixed a) { function f; f = (: sizeof, ({ 1 }) :); return
 // a loop whose body makes the driver apply a master function through safe_apply() (object_name for "%O"): with a master
 // whose function never returns, every turn runs into the evaluation limit inside that callback
 void sp_objname() { string t; while (1) t = sprintf("%O", this_object()); }
+// recursion from inside an aggregate: every level has a hundred values on the stack when it calls the next one, so the value stack
+// fills after a few levels - and fills through plain pushes of locals, not at a function entry
+varargs mixed rc_aggr(int n) { int a; mixed *x; a = 1; x = ({ a, a, a, a, a, a, a, a, a, a, a, a, a, a, a, a, a, a, a, a, a, a, a, a, a, a, a, a, a, a, a, a, a, a, a, a, a, a, a, a, a, a, a, a, a, a, a, a, a, a, a, a, a, a, a, a, a, a, a, a, a, a, a, a, a, a, a, a, a, a, a, a, a, a, a, a, a, a, a, a, a, a, a, a, a, a, a, a, a, a, a, a, a, a, a, a, a, a, a, a, rc_aggr(n + 1) }); return x[0]; }
+varargs mixed rc_aggrs(int n) { string a; a = "v"; return implode(({ a, a, a, a, a, a, a, a, a, a, a, a, a, a, a, a, a, a, a, a, a, a, a, a, a, a, a, a, a, a, a, a, a, a, a, a, a, a, a, a, a, a, a, a, a, a, a, a, a, a, a, a, a, a, a, a, a, a, a, a, rc_aggrs(n + 1) }), ""); }
+varargs mixed rc_args(int n) { int a; a = 1; return rc_args(a, a, a, a, a, a, a, a, a, a, a, a, a, a, a, a, a, a, a, a, rc_args(n + 1)); }
 void rc_callother() { this_object()->rc_callother(); }
 void rc_catch() { catch(rc_catch()); }
 void rc_catch2() { catch(catch(rc_catch2())); }
